@@ -98,7 +98,7 @@ def make_goal(gs, times):
     return g
 
 
-def build(case, extra_mixins=(), solver=None):
+def build(case, extra_mixins=(), solver=None, qp=None, expand=None, map_mode=None):
     """returns (problem, snapshots list)"""
     from rtctools.optimization.goal_programming_mixin import GoalProgrammingMixin
     from rtctools.optimization.single_pass_goal_programming_mixin import (
@@ -130,9 +130,24 @@ def build(case, extra_mixins=(), solver=None):
                 o[k] = v if isinstance(v, bool) else fnum(v)
             return o
 
+        def map_options(self):
+            o = super().map_options()
+            if map_mode is not None:
+                o["mode"] = map_mode
+            return o
+
         def solver_options(self):
             o = super().solver_options()
-            if solver is not None:
+            if expand is not None:
+                o["expand"] = expand
+            if qp is not None:
+                # qp = (plugin name, casadi_solver): a QP back-end through ca.qpsol or CachingQPSol
+                o["solver"] = qp[0]
+                o["casadi_solver"] = qp[1]
+                o.pop("ipopt", None)
+                o.update(dict(qp[2]) if len(qp) > 2 else {})
+                o["print_time"] = False
+            elif solver is not None:
                 o["casadi_solver"] = solver
             else:
                 o["ipopt"] = dict(o.get("ipopt", {}))
